@@ -407,6 +407,13 @@ func (h *http2FrameTracer) traceFrameLocked(data []byte) (int, bool) {
 }
 
 func (h *http2FrameTracer) emitFrame() bool {
+	if (h.header.Type == http2.FrameHeaders || h.header.Type == http2.FramePushPromise || h.header.Type == http2.FrameContinuation) &&
+		!h.header.Flags.Has(http2.FlagHeadersEndHeaders) {
+		// The header block continues in CONTINUATION frame(s), which must
+		// follow immediately. Keep what we have and parse the whole block
+		// once its last frame has arrived.
+		return true
+	}
 	defer func() {
 		h.frame.Reset()
 	}()
